@@ -973,10 +973,39 @@ def refuses(c, cond_texts, exc=None, env=None, loop_values=None):
         except Undecided:
             continue
     anyraise = dl.f_or(*[f for f, e, ln, via in sites]) if sites else dl.F
+    undecided = [False]
+
+    def decidable(f):
+        try:
+            dl.implies(c.eng, f, f)
+            return True
+        except Undecided:
+            return False
     for w in wants:
         try:
             # (1) whenever the condition holds, the call is refused (by this or an earlier refusal)
-            if not dl.implies(c.eng, w, anyraise)[0]:
+            try:
+                covered = dl.implies(c.eng, w, anyraise)[0]
+            except Undecided:
+                # some other refusal tests something the engine cannot evaluate: the refusals it can evaluate are a subset
+                # of all refusals, so being covered by them is enough
+                sites = [s for s in sites if decidable(s[0])]
+                try:
+                    sub = [s[0] for s in sites]
+                    covered = dl.implies(c.eng, w, dl.f_or(*sub) if sub else dl.F)[0]
+                except Undecided:
+                    # still too entangled: keep only the refusals that are comparable with this condition on their own
+                    rel = []
+                    for s in sites:
+                        try:
+                            if dl.implies(c.eng, s[0], w)[0] or dl.implies(c.eng, w, s[0])[0]:
+                                rel.append(s)
+                        except Undecided:
+                            pass
+                    sites = rel
+                    sub = [s[0] for s in sites]
+                    covered = dl.implies(c.eng, w, dl.f_or(*sub) if sub else dl.F)[0]
+            if not covered:
                 continue
             # (2) a raise of the promised type exists whose path condition entails the condition
             for f, e, ln, via in sites:
@@ -989,7 +1018,10 @@ def refuses(c, cond_texts, exc=None, env=None, loop_values=None):
                         not dl.equivalent(c.eng, f, dl.T)[0]:
                     return True, f"raise {e} at line {ln} (shared with other refusals)" + (f" (in {via})" if via else "")
         except Undecided:
+            undecided[0] = True
             continue
+    if undecided[0]:
+        return None, f"a refusal condition of {c.fi.qual} is outside what the decision engine evaluates"
     return False, f"no `raise {exc or ''}` is guarded by a condition equivalent to `{cond_texts if isinstance(cond_texts, str) else cond_texts[0]}`"
 
 
@@ -1013,6 +1045,9 @@ def _arith_atoms(c, formula):
 
 def check_refusal(rep, rule, c, what, cond_texts, exc, env=None, loop_values=None):
     ok, detail = refuses(c, cond_texts, exc, env, loop_values)
+    if ok is None:
+        rep.unk(rule, c.fi.site, what, detail)
+        return False
     if not ok:
         # a divisibility / rounding test written with other arithmetic over the same quantities may be the same test
         # (x % (a // b) vs (x * b) % a when b divides a): that is undecided, not refuted
